@@ -49,6 +49,24 @@ def run_case(ck: Check, case: dict):
         ck.violation("C08/completed-flag", "completion flag differs from the truth", rep)
         return
     k = len(r.layer_sizes)
+    # a history of earlier exports on the same object (any order, any subset): later exports must not depend on it
+    pre_nx = None
+    for nm in case.get("pre", []):
+        try:
+            if nm == "nx_undirected":
+                if r.graph.generators_inverse_closed and completed and len(ctx.states) <= 200:
+                    pre_nx = r.to_networkx_graph()
+            elif nm == "nx_directed":
+                if completed and len(ctx.states) <= 200:
+                    r.to_networkx_graph(directed=True, with_labels=False)
+            elif nm in ("adjacency_matrix", "adjacency_matrix_sparse"):
+                getattr(r, nm)()
+            else:
+                getattr(r, nm)
+        except (AssertionError, ValueError, KeyError) as ex:
+            ck.violation("C08/export-error", f"export {nm} raised: {type(ex).__name__}: {ex}", rep)
+            return
+        ck.count("pre:" + nm)
     try:
         all_states = r.all_states
         names = r.vertex_names
@@ -132,6 +150,23 @@ def run_case(ck: Check, case: dict):
             ck.count("networkx")
         except (AssertionError, ImportError) as ex:
             ck.count("networkx-skipped:" + type(ex).__name__)
+    # undirected networkx export (inverse-closed only): its edges are the unordered pairs of the edge list
+    if completed and len(rows) <= 200 and r.graph.generators_inverse_closed and len(set(names)) == len(names):
+        nxu = pre_nx if pre_nx is not None else r.to_networkx_graph()
+        pos = {nm: i for i, nm in enumerate(names)}
+        und = {frozenset((pos[u], pos[v])) for u, v in nxu.edges()}
+        if und != {frozenset(e) for e in pat} or sorted(nxu.nodes()) != sorted(names):
+            ck.violation("C08/networkx-undirected", "undirected networkx graph differs from the edge list", dict(rep, nx_edges=len(und), expected=len({frozenset(e) for e in pat})))
+            return
+        ck.count("networkx-undirected")
+    # every export read again after all the others: same answers (exports share cached arrays)
+    again = {"edges_list": r.edges_list, "adjacency_matrix": r.adjacency_matrix(), "adjacency_matrix_sparse": r.adjacency_matrix_sparse().toarray(), "all_states": r.all_states, "vertex_names": r.vertex_names}
+    first = {"edges_list": el, "adjacency_matrix": adj, "adjacency_matrix_sparse": sp, "all_states": all_states, "vertex_names": names}
+    for nm in again:
+        same = Counter(map(tuple, np.asarray(again[nm]).tolist())) == got if nm == "edges_list" else np.array_equal(np.asarray(again[nm]), np.asarray(first[nm]))
+        if not same:
+            ck.violation("C08/unstable-export", f"{nm} changed after other exports of the same result were requested", dict(rep, export=nm))
+            return
     # model: same BFS with the implementation's hashes -> same numbering and edge list
     m = ctx.drv.ask(f"export {maxd if maxd is not None else 1000000} ; {gd.pack(gd.central)}")
     mc, ms, me = [x.strip() for x in m.split(";")]
@@ -159,7 +194,9 @@ def gen_case(ck):
         ecc = len(layers) - 1
         maxd = None if rng.random() < 0.55 else rng.randint(1, ecc)
         cfg = graphs.gen_cfg(rng, gd)
-        return {"gd": gd.to_json(), "cfg": cfg, "max_diameter": maxd}
+        pre = [x for x in ["nx_undirected", "nx_directed", "adjacency_matrix", "adjacency_matrix_sparse", "edges_list", "vertex_names", "all_states"] if rng.random() < 0.4]
+        rng.shuffle(pre)
+        return {"gd": gd.to_json(), "cfg": cfg, "max_diameter": maxd, "pre": pre}
     raise RuntimeError("no case")
 
 
@@ -178,7 +215,7 @@ def main():
             break
         ck.guard(run_case, ck, gen_case(ck))
     ck.assumptions = ["scipy coo_array and networkx are modelled, not verified (compared with the dense matrix / edge list)", "hash injective on the orbit"]
-    ck.finish(rule="generated definitions with small orbits (permutation and matrix, inverse-closed or not) x encodings x completed / early-stopped (max_diameter 1..ecc); expected edge multiset computed from the Spec distance classes and plain-Python generator action")
+    ck.finish(rule="generated definitions with small orbits (permutation and matrix, inverse-closed or not) x encodings x completed / early-stopped (max_diameter 1..ecc); x a random history of earlier exports on the same result object (any subset, any order); expected edge multiset computed from the Spec distance classes and plain-Python generator action; every export re-read at the end")
 
 
 if __name__ == "__main__":
